@@ -123,6 +123,8 @@ type c11Obs struct {
 	Vals   *[]c11AbiVal `json:"vals,omitempty"`
 	Steps  []c11Obs     `json:"steps,omitempty"`
 	TxHash string       `json:"tx_hash,omitempty"` // viawrite: hash of the transaction the node received
+	// concreads: the answers the chain-like client returned to this step's Calls, in order
+	Returned []c11Ans `json:"returned,omitempty"`
 }
 
 // ---- scripted evm client ----------------------------------------------------------------------
@@ -380,6 +382,9 @@ func (ev *c11Env) run(in c11In) (obs c11Obs) {
 	if in.Op == "viawrite" {
 		return ev.runViaWrite(in, regAddr, logger)
 	}
+	if in.Op == "concreads" {
+		return ev.runConcurrentReads(in, regAddr, logger)
+	}
 	if in.ViaEvm {
 		// the production path: registry -> evmclient.EvmClient.Call -> EVM.CallContract
 		pk, err := crypto.GenerateKey()
@@ -518,6 +523,201 @@ func (c *c11ConcClient) CancelTx(ctx context.Context, h common.Hash) (common.Has
 	return common.Hash{}, errors.New("verif: CancelTx is not expected")
 }
 
+// c11GateClient serves overlapping reads (checks / amount getters) for different accounts.  It
+// answers like a chain: the amount returned is the one of the account whose address is in the
+// calldata the client SEES.  A Call that carries an account (36 bytes or more) parks at entry
+// until every operation has arrived at such a Call (or a deadline passed) and only then reads the
+// request it was given, in the scripted order; the Call for the minimum is answered at once.
+type c11GateClient struct {
+	steps    []c11In
+	mu       sync.Mutex
+	arrived  int
+	all      chan struct{}
+	turn     []chan struct{}
+	pos      map[int]int
+	parked   []chan struct{}
+	traces   [][]c11Eff
+	returned [][]c11Ans
+	limit    time.Duration
+}
+
+func (c *c11GateClient) idx(ctx context.Context) int {
+	if v, ok := ctx.Value(c11CtxKey{}).(int); ok && v >= 0 && v < len(c.steps) {
+		return v
+	}
+	return -1
+}
+
+func (c *c11GateClient) stakeAnswer(st c11In) c11Ans {
+	k := 0
+	if st.Op == "check" {
+		k = 1
+	}
+	if k < len(st.Calls) {
+		return st.Calls[k]
+	}
+	return c11Ans{Err: 1}
+}
+
+func (c *c11GateClient) Call(ctx context.Context, req *evmclient.TxRequest) ([]byte, error) {
+	i := c.idx(ctx)
+	if i < 0 || req == nil {
+		return nil, errors.New("verif: call outside a scripted operation")
+	}
+	var ans c11Ans
+	if len(req.CallData) < 36 {
+		// the minimum: the same for everybody
+		c.mu.Lock()
+		c.traces[i] = append(c.traces[i], c11Req("call", req))
+		ans = c11Ans{Err: 1}
+		if c.steps[i].Op == "check" && len(c.steps[i].Calls) > 0 {
+			ans = c.steps[i].Calls[0]
+		}
+		c.returned[i] = append(c.returned[i], ans)
+		c.mu.Unlock()
+	} else {
+		c.mu.Lock()
+		select {
+		case <-c.parked[i]:
+		default:
+			close(c.parked[i])
+		}
+		c.arrived++
+		if c.arrived == len(c.steps) {
+			close(c.all)
+		}
+		c.mu.Unlock()
+		select {
+		case <-c.all:
+		case <-time.After(c.limit):
+		}
+		k := c.pos[i]
+		select {
+		case <-c.turn[k]:
+		case <-time.After(c.limit):
+		}
+		e := c11Req("call", req) // only now are the fields of the request read
+		seen := req.CallData[len(req.CallData)-20:]
+		ans = c11Ans{Err: 1}
+		for _, st := range c.steps {
+			if hex.EncodeToString(seen) == strings.ToLower(st.Addr) {
+				ans = c.stakeAnswer(st)
+				break
+			}
+		}
+		c.mu.Lock()
+		c.traces[i] = append(c.traces[i], e)
+		c.returned[i] = append(c.returned[i], ans)
+		if k+1 < len(c.turn) {
+			select {
+			case <-c.turn[k+1]:
+			default:
+				close(c.turn[k+1])
+			}
+		}
+		c.mu.Unlock()
+	}
+	if ans.Err != 0 {
+		return nil, c11Error(ans.Err)
+	}
+	return c11Hex(ans.Data), nil
+}
+
+func (c *c11GateClient) Send(ctx context.Context, req *evmclient.TxRequest) (common.Hash, error) {
+	return common.Hash{}, errors.New("verif: Send is not expected")
+}
+func (c *c11GateClient) WaitForReceipt(ctx context.Context, h common.Hash) (*types.Receipt, error) {
+	return nil, errors.New("verif: WaitForReceipt is not expected")
+}
+func (c *c11GateClient) CancelTx(ctx context.Context, h common.Hash) (common.Hash, error) {
+	return common.Hash{}, errors.New("verif: CancelTx is not expected")
+}
+
+// runConcurrentReads returns the observation and, per step, the answers the client actually
+// returned to that step's Calls (the oracle answers of the model for that step).
+func (ev *c11Env) runConcurrentReads(in c11In, regAddr common.Address, logger *slog.Logger) (obs c11Obs) {
+	obs.Trace = []c11Eff{}
+	n := len(in.Steps)
+	slow := 1
+	if v, err := strconv.Atoi(os.Getenv("VERIF_SLOW")); err == nil && v > 0 {
+		slow = v
+	}
+	cl := &c11GateClient{steps: in.Steps, all: make(chan struct{}), pos: map[int]int{},
+		traces: make([][]c11Eff, n), returned: make([][]c11Ans, n), limit: time.Duration(slow) * time.Second}
+	order := in.Order
+	if len(order) != n {
+		order = make([]int, n)
+		for i := range order {
+			order[i] = i
+		}
+	}
+	for k, i := range order {
+		cl.pos[i] = k
+		cl.turn = append(cl.turn, make(chan struct{}))
+		cl.parked = append(cl.parked, make(chan struct{}))
+	}
+	close(cl.turn[0])
+	var r c11Registry
+	if in.Kind == 0 {
+		r = c11Prov{registrycontract.New(regAddr, cl, logger)}
+	} else {
+		r = c11Bid{bidderregistrycontract.New(regAddr, cl, logger)}
+	}
+	results := make([]c11Obs, n)
+	done := make([]chan struct{}, n)
+	for i := range in.Steps {
+		done[i] = make(chan struct{})
+		go func(i int) {
+			defer close(done[i])
+			st := in.Steps[i]
+			o := c11Obs{}
+			defer func() {
+				if rec := recover(); rec != nil {
+					o.NumErr = true
+					o.Bool, o.Num = nil, nil
+				}
+				results[i] = o
+			}()
+			ctx := context.WithValue(context.Background(), c11CtxKey{}, i)
+			addr := common.BytesToAddress(c11Hex(st.Addr))
+			if st.Op == "check" {
+				b := r.check(ctx, addr)
+				o.Bool = &b
+			} else {
+				v, err := r.stake(ctx, addr)
+				if err != nil || v == nil {
+					o.NumErr = true
+				} else {
+					s := v.String()
+					o.Num = &s
+				}
+			}
+		}(i)
+		// start the next operation only when this one is parked at its gated Call (then it has
+		// built its request), has finished, or a deadline has passed
+		select {
+		case <-cl.parked[i]:
+		case <-done[i]:
+		case <-time.After(cl.limit):
+		}
+	}
+	for i := range in.Steps {
+		<-done[i]
+	}
+	cl.mu.Lock()
+	defer cl.mu.Unlock()
+	for i := range in.Steps {
+		o := results[i]
+		o.Trace = cl.traces[i]
+		if o.Trace == nil {
+			o.Trace = []c11Eff{}
+		}
+		o.Returned = cl.returned[i]
+		obs.Steps = append(obs.Steps, o)
+	}
+	return obs
+}
+
 func (ev *c11Env) runConcurrent(in c11In, regAddr common.Address, logger *slog.Logger) (obs c11Obs) {
 	obs.Trace = []c11Eff{}
 	n := len(in.Steps)
@@ -617,16 +817,35 @@ func (c *c11ViaClient) WaitForReceipt(ctx context.Context, h common.Hash) (*type
 		return c.EvmClient.WaitForReceipt(ctx, h)
 	}
 	if c.never {
+		// nothing is ever mined: the caller gives up; any deadline gives the same outcome
 		wctx, cancel := context.WithTimeout(ctx, 2*c.settle)
 		defer cancel()
 		return c.EvmClient.WaitForReceipt(wctx, h)
 	}
-	// early: the chain shows the transaction only after this wait has been registered
+	// early: the chain shows the transaction only after this wait has been registered.
+	// Positive synchronisation: EvmClient.WaitForReceipt registers its waiter with the monitor
+	// and only then evaluates ctx.Done() for its select; the context handed in reports that call.
+	sctx := &c11SignalCtx{Context: ctx, reached: make(chan struct{})}
 	go func() {
-		time.Sleep(c.settle)
+		select {
+		case <-sctx.reached:
+		case <-time.After(c.limit):
+		}
 		c.mined.Store(true)
 	}()
-	return c.EvmClient.WaitForReceipt(ctx, h)
+	return c.EvmClient.WaitForReceipt(sctx, h)
+}
+
+// c11SignalCtx reports the first evaluation of Done()
+type c11SignalCtx struct {
+	context.Context
+	once    sync.Once
+	reached chan struct{}
+}
+
+func (c *c11SignalCtx) Done() <-chan struct{} {
+	c.once.Do(func() { close(c.reached) })
+	return c.Context.Done()
 }
 
 func (ev *c11Env) runViaWrite(in c11In, regAddr common.Address, logger *slog.Logger) (obs c11Obs) {
@@ -972,9 +1191,17 @@ func (ev *c11Env) abiTable(in c11In, obs c11Obs) string {
 
 func (ev *c11Env) coq(id int, in c11In, obs c11Obs) string {
 	var op, res string
-	if in.Op == "session" || in.Op == "concurrent" {
+	if in.Op == "session" || in.Op == "concurrent" || in.Op == "concreads" {
 		items := make([]string, len(in.Steps))
 		for i, st := range in.Steps {
+			if in.Op == "concreads" {
+				// the oracle answers of this step are what the client returned to ITS Calls
+				eff := append([]c11Ans{}, obs.Steps[i].Returned...)
+				for k := len(eff); k < len(st.Calls); k++ {
+					eff = append(eff, st.Calls[k])
+				}
+				st.Calls = eff
+			}
 			so, sr := c11CoqOpRes(st, obs.Steps[i])
 			items[i] = coqPair(so, coqPair(c11CoqTrace(obs.Steps[i].Trace), sr))
 		}
@@ -999,7 +1226,11 @@ func c11CoqOpRes(in c11In, obs c11Obs) (op, res string) {
 	switch in.Op {
 	case "check":
 		op = coqApp("OpCheck", addr, c11CoqAns(pick(0), in.CtxDone), c11CoqAns(pick(1), in.CtxDone))
-		res = coqApp("ObsBool", coqBool(*obs.Bool))
+		if obs.Bool != nil {
+			res = coqApp("ObsBool", coqBool(*obs.Bool))
+		} else {
+			res = "ObsNone" // the check crashed: agrees with nothing
+		}
 	case "getmin":
 		op = coqApp("OpGetMin", c11CoqAns(pick(0), in.CtxDone))
 	case "getstake":
@@ -1139,7 +1370,7 @@ func c11AmountStrings() []string {
 	return []string{"0", "1", "7", "007", "010", "0777", "1000000000000000000", "18446744073709551615", "18446744073709551616",
 		"115792089237316195423570985008687907853269984665640564039457584007913129639935",
 		"115792089237316195423570985008687907853269984665640564039457584007913129639941",
-		"", "-1", "+5", "1 ", " 1", "abc", "0x10", "1e3", "1_000", "١٢"}
+		"0100", "00017", "", "-1", "+5", "1 ", " 1", "abc", "0x10", "1e3", "1_000", "١٢"}
 }
 
 func c11RandAbiVals(r *rand.Rand) []c11AbiVal {
@@ -1469,6 +1700,38 @@ func TestVerifC11(t *testing.T) {
 	for i := range vw {
 		in, obs := vw[i], vwObs[i]
 		e.Emit("via-evmclient-write", in, obs, func(id int) string { return ev.coq(id, in, obs) })
+	}
+	// Y. overlapping checks / amount lookups for DIFFERENT accounts on one registry object; the
+	//    client answers by the account it sees in the request it is given
+	{
+		min, funded, unfunded := big100, big150, big.NewInt(50)
+		mk := func(op string, amount *big.Int) c11In {
+			st := c11In{Op: op, Addr: c11RandHex(r, 20)}
+			if op == "check" {
+				st.Calls = []c11Ans{okAns(min), okAns(amount)}
+			} else {
+				st.Calls = []c11Ans{okAns(amount)}
+			}
+			return st
+		}
+		for kind := 0; kind < 2; kind++ {
+			for _, sc := range []struct {
+				steps []c11In
+				order []int
+			}{
+				{[]c11In{mk("check", unfunded), mk("check", funded)}, []int{0, 1}},
+				{[]c11In{mk("check", unfunded), mk("check", funded)}, []int{1, 0}},
+				{[]c11In{mk("check", funded), mk("check", unfunded)}, []int{0, 1}},
+				{[]c11In{mk("check", funded), mk("check", unfunded)}, []int{1, 0}},
+				{[]c11In{mk("check", unfunded), mk("check", unfunded), mk("check", funded)}, []int{2, 0, 1}},
+				{[]c11In{mk("check", funded), mk("check", unfunded), mk("check", funded)}, []int{1, 2, 0}},
+				{[]c11In{mk("getstake", unfunded), mk("getstake", funded)}, []int{0, 1}},
+				{[]c11In{mk("getstake", funded), mk("check", unfunded)}, []int{1, 0}},
+				{[]c11In{mk("check", unfunded), mk("getstake", funded), mk("check", unfunded)}, []int{0, 1, 2}},
+			} {
+				run("concurrent-check", c11In{Kind: kind, Op: "concreads", Reg: c11RandHex(r, 20), Steps: sc.steps, Order: sc.order})
+			}
+		}
 	}
 	// W. overlapping stake / prepay calls with distinct amounts on one registry object
 	for kind := 0; kind < 2; kind++ {
